@@ -33,6 +33,36 @@ TARGETS = [
     ("pams/order.py", "Cancel", "agent_id"),
     ("pams/order.py", "Cancel", "market_id"),
     ("pams/order.py", "Cancel", "check_system_acceptable"),
+    ("pams/order_book.py", "OrderBook", "get_best_order"),
+    ("pams/order_book.py", "OrderBook", "get_best_price"),
+    ("pams/order_book.py", "OrderBook", "__len__"),
+    ("pams/market.py", "Market", "is_running"),
+    ("pams/market.py", "Market", "get_time"),
+    ("pams/market.py", "Market", "convert_to_tick_level_rounded_lower"),
+    ("pams/market.py", "Market", "convert_to_tick_level_rounded_upper"),
+    ("pams/market.py", "Market", "convert_to_tick_level"),
+    ("pams/market.py", "Market", "convert_to_price"),
+    ("pams/market.py", "Market", "remain_executable_orders"),
+    ("pams/market.py", "Market", "_update_market_price"),
+    ("pams/events/price_limit_rule.py", "PriceLimitRule", "get_limited_price"),
+    ("pams/events/price_limit_rule.py", "PriceLimitRule", "hooked_before_order"),
+    ("pams/events/trading_halt_rule.py", "TradingHaltRule", "hooked_after_execution"),
+    ("pams/events/trading_halt_rule.py", "TradingHaltRule", "hooked_before_step_for_market"),
+    ("pams/events/order_mistake_shock.py", "OrderMistakeShock", "hooked_before_order"),
+    ("pams/events/fundamental_price_shock.py", "FundamentalPriceShock", "hooked_before_step_for_market"),
+    ("pams/index_market.py", "IndexMarket", "compute_market_index"),
+    ("pams/index_market.py", "IndexMarket", "compute_fundamental_index"),
+    ("pams/agents/arbitrage_agent.py", "ArbitrageAgent", "submit_orders"),
+    ("pams/agents/market_maker_agent.py", "MarketMakerAgent", "submit_orders"),
+    ("pams/agents/fcn_agent.py", "FCNAgent", "submit_orders_by_market"),
+    ("pams/simulator.py", "Simulator", "_update_agents_for_execution"),
+    ("pams/session.py", "Session", "setup"),
+    ("pams/runners/sequential.py", "SequentialRunner", "_handle_orders"),
+    ("pams/runners/sequential.py", "SequentialRunner", "_collect_orders_from_normal_agents"),
+    ("pams/market.py", "Market", "_add_order"),
+    ("pams/market.py", "Market", "_cancel_order"),
+    ("pams/market.py", "Market", "_execution"),
+    ("pams/market.py", "Market", "_update_time"),
 ]
 
 
